@@ -3,13 +3,17 @@
 import glob, json, os
 rows = {}
 for fn in sorted(glob.glob("/var/tmp/automut/C??.jsonl")) + sorted(glob.glob("/var/tmp/automut/C??-c.jsonl")):
+    if fn.endswith("-rerun.jsonl"):
+        continue
     base = os.path.basename(fn)
     pid, kind = base[:3], ("generated C" if base.endswith("-c.jsonl") else "python")
     seen = {}
-    for l in open(fn):
-        r = json.loads(l)
-        key = (r["file"], r.get("a", r.get("line")), r.get("e", r.get("k")), r["new"])
-        seen[key] = r["rc"]
+    fns = [fn] + ([fn.replace(".jsonl", "-rerun.jsonl")] if os.path.exists(fn.replace(".jsonl", "-rerun.jsonl")) else [])
+    for f in fns:
+        for l in open(f):
+            r = json.loads(l)
+            key = (r["file"], r.get("a", r.get("line")), r.get("e", r.get("k")), r["new"])
+            seen[key] = r["rc"]
     n = len(seen); rep = sum(1 for v in seen.values() if v == 1); inc = sum(1 for v in seen.values() if v not in (0, 1)); sur = sum(1 for v in seen.values() if v == 0)
     rows[(pid, kind)] = (n, rep, inc, sur)
 print("| property | level | mutants run | reported (exit 1) | inconclusive / build failure | not reported |")
